@@ -25,6 +25,7 @@ struct Tally {
     restarts: u64,
     wrapped_learns: u64,
     quote_learns: u64,
+    commits_after_backspace: u64,
 }
 fn flush(t: &Tally, out: &mut Out) {
     out.count("evaluations", t.calls);
@@ -40,6 +41,7 @@ fn flush(t: &Tally, out: &mut Out) {
     out.count("observed_only.other_wrapping_other_choice", t.other_wrapping_differ);
     out.count("store_file_checked_after_commit", t.store_checks);
     out.count("restarts", t.restarts);
+    out.count("commits_from_a_list_returned_by_backspace", t.commits_after_backspace);
 }
 
 const BASES: [&str; 14] = ["onno", "ami", "as", "kotha", "sesh", "ebong", "hothat", "amar", "tumi", "boi", "Ami", "kal", "smile", "a"];
@@ -64,10 +66,12 @@ struct Step {
     trail: String,
     /// None = commit the pre-selected index; Some(k) = commit index (pre-selected + 1 + k) mod len
     pick: Option<usize>,
+    /// this many extra letters are typed after the text and erased again, so that the list committed from is the answer to a backspace
+    overshoot: usize,
 }
 
 fn steps_json(spec: &CfgSpec, steps: &[Step]) -> Value {
-    json!({"cfg": spec.to_json(), "steps": steps.iter().map(|s| json!({"restart_before": s.restart, "lead": s.lead, "word": s.word, "trail": s.trail, "commit": match s.pick { None => json!("preselected"), Some(k) => json!(k) }})).collect::<Vec<_>>()})
+    json!({"cfg": spec.to_json(), "steps": steps.iter().map(|s| json!({"restart_before": s.restart, "lead": s.lead, "word": s.word, "trail": s.trail, "commit": match s.pick { None => json!("preselected"), Some(k) => json!(k) }, "typed_past_and_erased": s.overshoot})).collect::<Vec<_>>()})
 }
 
 fn gen_history(rng: &mut Rng, thorough: bool) -> (CfgSpec, Vec<Step>) {
@@ -111,7 +115,7 @@ fn gen_history(rng: &mut Rng, thorough: bool) -> (CfgSpec, Vec<Step>) {
         let b = bases[rng.below(bases.len())];
         let s = if rng.chance(1, 3) { SFX[rng.below(SFX.len())] } else { "" };
         let (l, r) = if rng.chance(1, 2) { (String::new(), String::new()) } else { wraps[rng.below(wraps.len())].clone() };
-        steps.push(Step { restart: rng.chance(1, 7), lead: l, word: format!("{b}{s}"), trail: r, pick: if rng.chance(1, 2) { None } else { Some(rng.below(6)) } });
+        steps.push(Step { restart: rng.chance(1, 7), lead: l, word: format!("{b}{s}"), trail: r, pick: if rng.chance(1, 2) { None } else { Some(rng.below(6)) }, overshoot: if rng.chance(1, 4) { rng.range(1, 2) } else { 0 } });
     }
     (spec, steps)
 }
@@ -158,6 +162,32 @@ fn run_history(o: &PhonOracle, spec: CfgSpec, steps: &[Step], root: &std::path::
         };
         t.calls += text.len() as u64;
         t.typings += 1;
+        let s = if st.overshoot > 0 {
+            // type past the text and come back by backspaces
+            let r = (|| -> Result<riti::suggestion::Suggestion, Panic> {
+                let mut sel = if s.is_lonely() { 0 } else { s.previously_selected_index().min(255) as u8 };
+                for c in "hs".chars().take(st.overshoot) {
+                    let x = sess.key(kc(c), 0, sel)?;
+                    sel = if x.is_lonely() { 0 } else { x.previously_selected_index().min(255) as u8 };
+                }
+                let mut last = sess.bs(false)?;
+                for _ in 1..st.overshoot {
+                    last = sess.bs(false)?;
+                }
+                Ok(last)
+            })();
+            t.calls += 2 * st.overshoot as u64;
+            t.commits_after_backspace += 1;
+            match r {
+                Ok(x) if !x.is_empty() && !x.is_lonely() => x,
+                _ => {
+                    let _ = sess.finish();
+                    continue;
+                }
+            }
+        } else {
+            s
+        };
         let list = s.get_suggestions().to_vec();
         let sel = s.previously_selected_index();
         if sel >= list.len() {
@@ -315,7 +345,7 @@ impl Prop for C09 {
     fn rule(&self) -> String {
         "histories of 5-24 (quick) / 5-40 (thorough) words from a small per-history vocabulary (2-4 of 14 bases, 10 suffixes, 3 wrappings over the C03 punctuation set with quote-heavy weighting; a bare ':' excluded, the escaped colon ':`' included as trailing punctuation), \
          suggestions on, English and smart quotes free; every word is typed with front-end protocol selection bytes, the pre-selection is judged against a 20-line model (word -> committed candidate, latest wins; updated only by commits of a non-pre-selected index), \
-         then either the pre-selected or another index is committed; the store file is parsed after every commit; a context restart before 1 word in 7 and, at the end of every history, every learned text is typed once more in a new context. \
+         in a quarter of the words 1-2 more letters are typed and erased again so that the list committed from is the answer to a backspace; then either the pre-selected or another index is committed; the store file is parsed after every commit; a context restart before 1 word in 7 and, at the end of every history, every learned text is typed once more in a new context. \
          Re-typings under another wrapping are recorded as observations only. distinct_nontrivial = distinct (text, options, position in history) typings."
             .into()
     }
@@ -332,7 +362,7 @@ impl Prop for C09 {
     fn minima(&self, _tier: Tier) -> Vec<(&'static str, u64)> {
         vec![
             ("learning_commits", 3_000), ("default_commits_checked_store_unchanged", 3_000), ("same_text_retypings_judged", 2_000), ("same_text_retypings_judged_in_new_context", 1_000),
-            ("suffix_form_retypings_judged", 150), ("learning_commits_with_wrapping", 1_000), ("learning_commits_with_quotes_and_smart_quotes_on", 100), ("store_file_checked_after_commit", 6_000),
+            ("suffix_form_retypings_judged", 150), ("learning_commits_with_wrapping", 1_000), ("learning_commits_with_quotes_and_smart_quotes_on", 100), ("store_file_checked_after_commit", 6_000), ("commits_from_a_list_returned_by_backspace", 1_000),
         ]
     }
     fn classify(&self, classifier: &str, _params: &Value, v: &Violation) -> bool {
@@ -387,6 +417,7 @@ impl Prop for C09 {
                         word: s.get("word").and_then(|x| x.as_str()).unwrap_or("").to_string(),
                         trail: s.get("trail").and_then(|x| x.as_str()).unwrap_or("").to_string(),
                         pick: s.get("commit").and_then(|c| c.as_u64()).map(|k| k as usize),
+                        overshoot: s.get("typed_past_and_erased").and_then(|c| c.as_u64()).unwrap_or(0) as usize,
                     })
                     .collect()
             })
